@@ -362,7 +362,11 @@ class GraphExpander:
         used_pnames = []
         for p_group in set(REC_P_GROUP.findall(line)):
             for item in p_group.split(','):
-                pname, offs = REC_P_OFFS.match(item).groups()
+                match = REC_P_OFFS.match(item)
+                if match is None:
+                    raise ParamExpandError(
+                        "bad parameter syntax in <%s>: %s" % (p_group, line))
+                pname, offs = match.groups()
                 if not self.param_cfg.get(pname, None):
                     raise ParamExpandError(
                         "parameter %s is not defined in <%s>: %s" % (
